@@ -10,10 +10,13 @@ import importlib
 
 CHECKS = {}
 NOT_YET = {}
+# checks/claimed.txt: the properties whose check is integrated (hooks merged
+# into /repo, passes on the unchanged tree); one id per line
+CLAIMED = set(open(os.path.join(os.path.dirname(os.path.abspath(__file__)), "claimed.txt")).read().split())
 for path in sorted(glob.glob(os.path.join(os.path.dirname(os.path.abspath(__file__)), "c[0-9][0-9].py"))):
     name = os.path.basename(path)[:-3]
     mod = importlib.import_module(name)
-    if hasattr(mod, "MANIFEST"):
+    if hasattr(mod, "MANIFEST") and name.upper() in CLAIMED:
         CHECKS[name.upper()] = mod.MANIFEST
 
 VERIF = os.path.dirname(os.path.dirname(os.path.abspath(__file__)))
